@@ -53,6 +53,15 @@ func secureCompliant(sc scenario) bool {
 		return false
 	}
 	for _, o := range sc.others {
+		if o.id == idSASL || o.id == idBind {
+			// the property names the built-in authentication and binding features as
+			// features that require a secured stream: whatever masks the code gives
+			// them, a session that is neither secure nor authenticated is covered
+			if sc.state0&uint8(xmpp.Authn) != 0 {
+				return false
+			}
+			continue
+		}
 		if sc.state0&o.nec == o.nec && sc.state0&o.proh == 0 {
 			return false
 		}
@@ -392,6 +401,11 @@ func (c *ctx) corpus(tees []int) {
 		for _, a := range []byte{'P', 'F'} {
 			c.check(scenario{others: bi, clear: [][]unit{{hdr(true), l}, {u(a)}}, prot: []pu{{u: hdr(true)}, {u: list()}}}, tees, "corpus-builtin")
 		}
+	}
+	// (were SASL selectable in clear text, Go's map order would decide between it and a
+	// required STARTTLS: repeat so that either order is seen)
+	for k := 0; k < 12; k++ {
+		c.check(scenario{others: bi, clear: [][]unit{{hdr(true), list(it(0, true), sa)}, {u('P')}}, prot: []pu{{u: hdr(true)}, {u: list()}}}, tees, "corpus-builtin")
 	}
 	// 5. clear text pipelined behind <proceed/>
 	c.pipelined(scenario{clear: [][]unit{{hdr(true), list(it(0, true))}, {u('P')}}, prot: []pu{{u: hdr(true)}, {u: list()}}},
